@@ -38,7 +38,7 @@ def configs(tier, seed):
     for i, vs in enumerate(vs_list):
         out.append(dict(harness="transform", vs=list(vs), cost=1, timeout_ms=60000))
     cases = [((3, 2, 4), "uint8", None), ((2, 3, 1, 2), "uint16", None), ((2, 2, 2), "int16", None), ((1, 5, 2), "float32", None),
-             ((2, 2, 2), "float64", None), ((2, 1, 2), "uint8", (2.0, 1.0)), ((3, 3, 3, 3), "uint64", None), ((2, 2, 2), "int8", None)]
+             ((2, 2, 2), "float64", None), ((2, 1, 2), "uint8", (2.0, 1.0)), ((2, 2, 2), "uint16", (1.0, -1024.0)), ((2, 2, 1), "int16", (0.5, 0.0)), ((3, 3, 3, 3), "uint64", None), ((2, 2, 2), "int8", None)]
     for shape, dt, sc in cases:
         for sharding in (None, "1,2,3"):
             out.append(dict(harness="info", shape=list(shape), dtype=dt, scaling=sc, sharding=sharding, gzip=bool(sharding and len(shape) == 3), cost=1))
